@@ -100,6 +100,7 @@ func main() {
 
 	curPlmn := []byte{0x02, 0xf8, 0x39} // ngapTestpacket's initial TestPlmn
 	forceBits, forceOnes := uint64(0), false
+	setupCount := 0
 	setup := func() {
 		curPlmn = plmn()
 		bits := uint64(22 + rg.Intn(11))
@@ -115,7 +116,8 @@ func main() {
 		if bits%8 != 0 {
 			gid[len(gid)-1] &= 0xff << uint(8-bits%8)
 		}
-		nameLen := []int{1, 2, 7, 75, 150}[rg.Intn(5)]
+		nameLen := []int{1, 2, 7, 75, 150}[setupCount%5]
+		setupCount++
 		name := make([]byte, nameLen)
 		for i := range name {
 			name[i] = "ABCDEFGHIJKLMNOPQRSTUVWXYZabcdefghijklmnopqrstuvwxyz0123456789 -"[rg.Intn(64)]
